@@ -29,6 +29,8 @@ type e1Spec struct {
 	machines []string
 	digSat   int
 	maxLen   int
+	// noWindow disables the second run of every node as a window into a larger buffer
+	noWindow bool
 	noPump   bool
 	// pumpN / pumpTail override the pumping bounds (default 9/8 quick, 17/16 thorough)
 	pumpN, pumpTail int
@@ -72,6 +74,22 @@ func runE1(r *eng.Run, sp e1Spec, D, K, maxStates int) e1Result {
 				implAlive = implAlive || al
 			}
 			bad, of, exp, got := sp.check(w, a)
+			if bad == "" && !of && !sp.noWindow && expanding {
+				// the same input as a window into a larger buffer whose next bytes continue the
+				// current token: the result must not depend on what lies beyond len(input) (no
+				// read past the end), and nothing beyond it may be written
+				tail := append(append([]byte(nil), a.Completion()...), windowTail...)
+				big := append(append(make([]byte, 0, len(w)+len(tail)), w...), tail...)
+				win := big[:len(w)]
+				bad, of, exp, got = sp.check(win, a)
+				if bad != "" {
+					bad = "window-into-larger-buffer/" + bad
+				} else if !bytes.Equal(big[len(w):], tail) {
+					bad, exp, got = "write-beyond-len(input)", fmt.Sprintf("%q", tail), fmt.Sprintf("%q", big[len(w):])
+				} else if !bytes.Equal(win, w) {
+					bad, exp, got = "input-modified", fmt.Sprintf("%q", w), fmt.Sprintf("%q", win)
+				}
+			}
 			if of {
 				res.oracle++
 				if res.oracle <= 5 {
@@ -199,3 +217,6 @@ func e1Evidence(r *eng.Run, D, K int, results ...e1Result) {
 }
 
 const e1Rule = "E1: BFS over product states (configuration of the real generated machine at end of input x reference automaton state x class of the last k bytes); every expanded node is extended by all 256 bytes and each resulting input is run on the real code and compared with the reference model and the standard library. Pumping pass: every self-loop (state, byte class) is repeated n times, followed by every byte and a tail, with and without the shortest completion. distinct_nontrivial = distinct expanded (alive, within nesting bound) product states."
+
+// windowTail follows the completion of the current token in the larger buffer of window runs.
+var windowTail = []byte(`5e1"]}:,0 ` + "\x00")
